@@ -16,9 +16,14 @@ class StubEzsp:
     def _maybe_fail(self, idx):
         from bellows.exception import EzspError
 
-        if self.plan in ("t", "e") and self.where == idx:
+        if self.plan in ("t", "e", "i") and self.where == idx:
             if self.plan == "t":
                 raise asyncio.TimeoutError()
+            if self.plan == "i":
+                # what ProtocolHandler raises when the NCP answers with an invalidCommand frame: a failed feed like any other
+                from bellows.exception import InvalidCommandError
+
+                raise InvalidCommandError("invalid command")
             raise EzspError("injected")
 
     async def nop(self):
@@ -94,8 +99,8 @@ def oracle(version, word, got, maxf, period):
     n = 0
     for k, (o, g) in enumerate(zip(word, got)):
         r, ka = g.split(":")
-        run = run + 1 if o in "te" else 0
-        want = "1" if (o in "te" and run > maxf) else "0"
+        run = run + 1 if o in "tei" else 0
+        want = "1" if (o in "tei" and run > maxf) else "0"
         if r != want:
             return k, f"feed {k} of word {word!r} (v{version}): raised={r}, expected {want} (run of {run} consecutive failures, tolerated {maxf})"
         if version == 4:
@@ -124,7 +129,12 @@ def run(ctx):
     for _ in range(ctx.n(100, 1000)):
         v = ctx.rng.choice([4, 5, 6, 7, 9, 10, 11, 12, 13, 14])
         n = ctx.rng.randint(8, 40)
-        cases.append((v, "".join(ctx.rng.choice("oouuttte") for _ in range(n))))
+        cases.append((v, "".join(ctx.rng.choice("oouutttei") for _ in range(n))))
+    for version in (4, 8, 14):   # the NCP answers the keep-alive with an invalid-command frame
+        for n in range(1, maxf + 3):
+            for w in itertools.product("oti", repeat=n):
+                if "i" in w:
+                    cases.append((version, "".join(w)))
     for v in (4, 7, 14):
         n = 2 * period + 40
         cases.append((v, "".join(ctx.rng.choice("ooooooooote") for _ in range(n))))
@@ -157,11 +167,11 @@ def run(ctx):
 
     impl = asyncio.run(all_impl())
     # 'u' (feed succeeds, free-buffer value unavailable) is an `ok` outcome for the model and the property
-    model = ctx.driver([f"c19 run {v} 0 {w.replace('u', 'o')}" for v, w in cases])
+    model = ctx.driver([f"c19 run {v} 0 {w.replace('u', 'o').replace('i', 'e')}" for v, w in cases])  # for the model an invalid-command answer is an EZSP error
     nontrivial = 0
     for i, ((v, w), got) in enumerate(zip(cases, impl)):
         ctx.cov["evaluations"] += 1
-        if "t" in w or "e" in w:
+        if "t" in w or "e" in w or "i" in w:
             nontrivial += 1
         if any(g.startswith("1") for g in got):
             ctx.count("words_with_raise")
